@@ -31,21 +31,45 @@ META = {
                   ('chord_symbols_lib', 'chord_symbol_root'),
                   ('chord_symbols_lib', 'chord_symbol_quality'),
                   ('chord_symbols_lib', '_parse_chord_symbol'),
-                  ('chord_symbols_lib', '_parse_modifications')],
-    'assumptions': ['K distinct pitch classes per job, octaves 0..9',
+                  ('chord_symbols_lib', '_parse_modifications'),
+                  ('chord_symbols_lib', '_split_chord_symbol')],
+    'assumptions': ['K distinct pitch classes per job, octaves 0..9 (0..10 up '
+                    'to pitch 127 in the container jobs)',
                     'h_symbol: figures assembled as root spelling + kind from '
                     'the module table + <=M parenthesised (or bare) degree '
                     'modifications + optional /bass; every choice domain is '
-                    'closed by the solver (degenerate enumeration, as above)'],
+                    'closed by the solver (degenerate enumeration, as above). '
+                    'Parenthesised figures are also compared with the '
+                    "harness's own model: degree list of the kind (module "
+                    'table) + add / no / alter applied in order (add7 relative '
+                    'to the dominant seventh) -> pitch classes, quality of the '
+                    'triad on 1-3-5 (not asserted with degrees 8/10/12), and '
+                    'rejection exactly for add-present / no-absent',
+                    'h_kind extra: kind + one foreign pitch class, any member '
+                    'lowest, the others in close position 1..4 octaves above',
+                    'h_mods: _degrees_to_modifications between two table '
+                    'kinds; a shared degree may only go natural -> +-1 '
+                    '(altered -> other alteration is written relative and is '
+                    'outside the claim)',
+                    'h_reject: empty list/tuple/set gives NO_CHORD or '
+                    'ChordSymbolError; 15 fixed non-symbols are refused by '
+                    'all four interpreters with ChordSymbolError'],
     'bounds': {
-        'quick': 'all sets of 1..3 pitch classes, every bass / octave layout; '
+        'quick': 'all sets of 1..3 pitch classes, every bass / octave layout '
+                 '(must be named; list unchanged; second call same name); '
+                 'K=2 and K=3(first=1) as reversed/rotated list, tuple, set; '
+                 'K=2 with the identical pitch twice; the 12-class set (error '
+                 'branch); 29 kinds x 12 roots (must be named, quality and '
+                 'root of every abbreviation on every root); 10 kinds (triads, '
+                 '7, maj7, m7, sus2, sus, sus7) + one foreign pitch class; '
                  'symbols: all 68 kinds x <=1 modification (6 types x degrees '
-                 '1..13) x roots C/F/B x {no bass, /E, /Eb}; 4 kinds x all 35 '
-                 'root and 35 bass spellings',
+                 '1..13) x roots C/F/B x {no bass, /E, /Eb}; 12 kinds x <=2 '
+                 'modifications (degrees 1,3,5,7,9) on Eb; 4 kinds x all 35 '
+                 'root and 35 bass spellings; 29x29 kind pairs in h_mods',
         'thorough': 'all sets of 1..6 pitch classes (2509 sets), every bass; '
                     'sets of 7..12 not required to finish; symbols with 2 '
                     'modifications (10 degrees) and bare modifications on all '
-                    '35 root spellings',
+                    '35 root spellings; every kind + one foreign pitch class',
     },
     'outside': ['sets larger than completed bounds (see jobs_not_completed)'],
 }
@@ -62,9 +86,21 @@ def h_name(c):
     c.assume(a < b)  # a set: strictly increasing representatives
   if 'first' in c.params:
     c.assume(c.eq(pcs[0], c.params['first']))
-  octs = [c.int('o%d' % i, 0, 9) for i in range(Kn)]
+  olo, ohi = c.params.get('octs', (0, 9))
+  octs = [c.int('o%d' % i, olo, ohi) for i in range(Kn)]
   pitches = [pc + 12 * o for pc, o in zip(pcs, octs)]
-  if c.params.get('doubled'):
+  if ohi > 9:
+    for p in pitches:
+      c.assume(p <= 127)  # the top of the MIDI range, 120..127
+  doubled = c.params.get('doubled')
+  if doubled == 'same':
+    # the identical pitch supplied twice
+    j = c.choice('dbl', list(range(Kn)))
+    if c.choice('dbl_first', [False, True]):
+      pitches = [pitches[j]] + pitches
+    else:
+      pitches = pitches + [pitches[j]]
+  elif doubled:
     # one pitch class sounds in two octaves (either may be the lowest pitch;
     # the copy is stored before or after the others)
     j = c.choice('dbl', list(range(Kn)))
@@ -74,15 +110,44 @@ def h_name(c):
       pitches = [extra] + pitches
     else:
       pitches = pitches + [extra]
-  res, err = c.raises(cs.pitches_to_chord_symbol, list(pitches))
+  # storage order and container of the argument (the library's own caller,
+  # infer_dense_chords_for_sequence, passes a set)
+  container = c.params.get('container', 'list')
+  if container != 'list':
+    container = c.choice('container', ['rev', 'rot', 'tuple', 'set'])
+  if container == 'rev':
+    arg = list(reversed(pitches))
+  elif container == 'rot':
+    arg = list(pitches[1:]) + [pitches[0]]
+  elif container == 'tuple':
+    arg = tuple(pitches)
+  elif container == 'set':
+    arg = set(pitches)  # concretises the pitches (narrow octave range)
+  else:
+    arg = list(pitches)
+  supplied = list(arg) if isinstance(arg, list) else None
+  res, err = c.raises(cs.pitches_to_chord_symbol, arg)
+  if supplied is not None:
+    c.check(len(arg) == len(supplied) and
+            c.And([c.eq(a, b) for a, b in zip(arg, supplied)]),
+            "the caller's list of pitches is left as supplied")
   if err is not None:
     c.check(isinstance(err, cs.ChordSymbolError),
             'a set that cannot be named raises ChordSymbolError and nothing '
             'else')
+    # any one to three pitch classes have a chord symbol (root + two degrees
+    # that can always be given distinct degree numbers), so the documented
+    # reason to raise ("no known chord symbol corresponds") cannot apply
+    c.check(Kn > 3, 'a set of at most three pitch classes is named')
     c.cover('unnameable set')
     return
   c.cover('named set')
   name = res
+  c.check(isinstance(name, str), 'the name is a string')
+  if not doubled:
+    res2, err2 = c.raises(cs.pitches_to_chord_symbol, arg)
+    c.check(err2 is None and res2 == name,
+            'naming the same pitches again gives the same name')
   want = sorted(c.concretize(p) for p in pcs)
   # lowest supplied pitch (octaves symbolic: decided by the solver)
   low = pitches[0]
@@ -104,6 +169,8 @@ def h_name(c):
     tri = set((root + d) % 12 for d in _TRIADS[names[q]])
     c.check(tri <= set(cs.chord_symbol_pitches(name)),
             'a triad quality implies the triad is among the pitches')
+  else:
+    c.check(q == cs.CHORD_QUALITY_OTHER, 'quality is one of the five values')
 
 
 _MAJOR_SCALE = [0, 2, 4, 5, 7, 9, 11]
@@ -114,6 +181,54 @@ def _degree_pc(d):
   the major-scale degree, lowered / raised once per accidental sign."""
   n = int(d.lstrip('#b'))
   return (_MAJOR_SCALE[(n - 1) % 7] + d.count('#') - d.count('b')) % 12
+
+
+def _model_degrees(degree_strs):
+  """{degree number: alteration in semitones} of a degree list of the table."""
+  return dict((int(d.lstrip('#b')), d.count('#') - d.count('b'))
+              for d in degree_strs)
+
+
+def _model_modify(deg, mod, n):
+  """The module's documented modification types, written out here: addition
+  (of a degree not yet present; an added seventh is relative to the dominant
+  seventh), subtraction (of a present degree), alteration (of a present degree
+  by a semitone, or addition of the altered degree).  False = not applicable."""
+  if mod in ('add', 'add#', 'addb'):
+    if n in deg:
+      return False
+    deg[n] = {'add': 0, 'add#': 1, 'addb': -1}[mod] - (1 if n == 7 else 0)
+  elif mod == 'no':
+    if n not in deg:
+      return False
+    del deg[n]
+  else:
+    deg[n] = deg.get(n, 0) + {'#': 1, 'b': -1}[mod]
+  return True
+
+
+def _model_pcs(root_pc, deg):
+  return sorted(set((root_pc + _MAJOR_SCALE[(n - 1) % 7] + a) % 12
+                    for n, a in deg.items()))
+
+
+def _model_quality(deg):
+  """Name of the triad on degrees 1, 3, 5 (None: no such triad)."""
+  if 1 not in deg or 3 not in deg or 5 not in deg:
+    return None
+  return {(0, 0, 0): 'major', (0, -1, 0): 'minor', (0, 0, 1): 'augmented',
+          (0, -1, -1): 'diminished'}.get((deg[1], deg[3], deg[5]))
+
+
+def _quality_value(cs, name):
+  return {'major': cs.CHORD_QUALITY_MAJOR, 'minor': cs.CHORD_QUALITY_MINOR,
+          'augmented': cs.CHORD_QUALITY_AUGMENTED,
+          'diminished': cs.CHORD_QUALITY_DIMINISHED,
+          None: cs.CHORD_QUALITY_OTHER}[name]
+
+
+# one spelling per pitch class, for figures written by the harness
+_ROOT_NAMES = ['C', 'Db', 'D', 'Eb', 'E', 'F', 'F#', 'G', 'Ab', 'A', 'Bb', 'B']
 
 
 def h_kind(c):
@@ -128,13 +243,28 @@ def h_kind(c):
   root = c.int('root', 0, 11)
   rootc = c.concretize(root)
   pcs = sorted(set((rootc + _degree_pc(d)) % 12 for d in degrees))
-  octs = [c.int('o%d' % i, 2, 6) for i in range(len(pcs))]
+  extra = c.params.get('extra')
+  if extra:
+    # the kind plus ONE foreign pitch class: a slash chord over a bass that is
+    # no chord tone, or an added / altered tension above the kind
+    rel = c.choice('extra', [r for r in range(1, 12)
+                             if (rootc + r) % 12 not in pcs])
+    pcs = sorted(pcs + [(rootc + rel) % 12])
+    # any member lowest (octave 2), the others in close position any number
+    # of octaves (1..4) above it
+    low_i = c.choice('low', list(range(len(pcs))))
+    up = c.int('up', 3, 6)
+    octs = [2 if i == low_i else up for i in range(len(pcs))]
+  else:
+    octs = [c.int('o%d' % i, 2, 6) for i in range(len(pcs))]
   pitches = [pc + 12 * o for pc, o in zip(pcs, octs)]
   res, err = c.raises(cs.pitches_to_chord_symbol, list(pitches))
   if err is not None:
     c.check(isinstance(err, cs.ChordSymbolError),
             'a set that cannot be named raises ChordSymbolError and nothing '
             'else')
+    # the pitches of a kind of the table correspond to a known chord symbol
+    c.check(bool(extra), 'the pitches of a table kind are named')
     c.cover('kind not nameable in this layout')
     return
   low = pitches[0]
@@ -147,11 +277,24 @@ def h_kind(c):
   c.check(got == pcs, 'the name of a table kind denotes exactly its pitch '
                       'classes')
   # and the kind's own abbreviations denote the degrees of the table
+  want_q = _quality_value(cs, _model_quality(_model_degrees(degrees)))
+  kind_pcs = sorted(set((rootc + _degree_pc(d)) % 12 for d in degrees))
   for ab in abbrevs:
     fig = 'C' + ab
     c.check(sorted(set(cs.chord_symbol_pitches(fig))) ==
             sorted(set(_degree_pc(d) for d in degrees)),
             'every abbreviation of a kind denotes the degrees the table lists')
+    # ... on every root, with the quality of its triad on degrees 1, 3, 5
+    fig = _ROOT_NAMES[rootc] + ab
+    c.check(sorted(set(cs.chord_symbol_pitches(fig))) == kind_pcs,
+            'every abbreviation of a kind denotes the degrees the table lists, '
+            'on every root')
+    c.check(cs.chord_symbol_root(fig) == rootc and
+            cs.chord_symbol_bass(fig) == rootc,
+            'root and bass of a kind without a slash are the spelled root')
+    c.check(cs.chord_symbol_quality(fig) == want_q,
+            'the quality of a table kind is that of its triad on degrees '
+            '1, 3, 5')
   c.cover('named')
 
 
@@ -172,7 +315,11 @@ def h_symbol(c):
   the solver closes each choice domain."""
   cs = c.mod('chord_symbols_lib')
   kinds = sorted(cs._CHORD_KINDS_BY_ABBREV)
-  lo, hi = c.params['kinds']
+  if 'kind_names' in c.params:
+    kinds = list(c.params['kind_names'])
+    lo, hi = 0, len(kinds)
+  else:
+    lo, hi = c.params['kinds']
   mods = sorted(cs._DEGREE_MODIFICATIONS)
   root_str, root_pc = _spell(c, 'root', c.params['root_steps'],
                              c.params['root_alters'])
@@ -180,6 +327,7 @@ def h_symbol(c):
   fig = root_str + kind
   M = c.params['M']
   paren = c.params.get('paren', True)
+  applied = []
   for j in range(M):
     present = c.choice('mod%d_present' % j, [False, True])
     if not present:
@@ -187,6 +335,12 @@ def h_symbol(c):
     m = c.choice('mod%d_type' % j, c.params.get('mod_types') or mods)
     d = c.choice('mod%d_degree' % j, c.params['degrees'])
     fig += ('(%s%d)' if paren else '%s%d') % (m, d)
+    applied.append((m, d))
+  if not paren and kind == '' and applied and applied[0][0] in ('#', 'b'):
+    # a bare alteration directly after the root letter belongs to the root
+    # spelling ('C' + 'b5' is C flat with the kind '5'): the spelled root is
+    # one semitone off, if the figure is a symbol at all
+    root_pc = (root_pc + (1 if applied[0][0] == '#' else -1)) % 12
   bass_pc = root_pc
   if c.choice('has_bass', [False, True]):
     bass_str, bass_pc = _spell(c, 'bass', c.params['bass_steps'],
@@ -212,6 +366,21 @@ def h_symbol(c):
             'bass pitch class is the spelled bass, or the root without one')
   c.check((pitches is None) == (q is None),
           'pitches and quality are defined for the same symbols')
+  deg = ok = None
+  if paren:
+    # The meaning of a parenthesised figure (none of this grid is ambiguous),
+    # from the kind's degree list in the module's table and the documented
+    # modification types, worked out by the harness.
+    deg = _model_degrees(cs._CHORD_KINDS_BY_ABBREV[kind])
+    ok = all(_model_modify(deg, m, d) for m, d in applied)
+    if ok:
+      c.check(pitches is not None and root is not None and bass is not None,
+              'a grammatical symbol is rejected only for adding a degree '
+              'already present or removing an absent one')
+    else:
+      c.check(pitches is None,
+              'a symbol that adds a degree already present or removes an '
+              'absent one is rejected')
   if pitches is None or root is None:
     return
   c.cover('symbol accepted')
@@ -228,9 +397,80 @@ def h_symbol(c):
     c.cover('triad quality with a modification', '(' in fig)
   else:
     c.check(q == cs.CHORD_QUALITY_OTHER, 'quality is one of the five values')
+  if not paren:
+    return  # bare modifications can merge with root / kind; no model for them
+  c.check(sorted(set(pitches)) == _model_pcs(root_pc, deg),
+          'the pitch classes are those of the kind with its modifications '
+          'applied in order')
+  if not any(n in deg for n in (8, 10, 12)):
+    c.check(q == _quality_value(cs, _model_quality(deg)),
+            'the quality is that of the triad on degrees 1, 3, 5')
+  c.cover('modified symbol matches the model', bool(applied))
+
+_NOT_SYMBOLS = ['', 'N.C.', 'H7', 'c7', 'Cfoo', 'C/', 'C7/H', 'C(add)', 'Cadd',
+                'C#b7', '7', 'C 7', 'Cmaj7/', 'C(9)', 'Cb3']
 
 
-HARNESSES = {'h_name': h_name, 'h_symbol': h_symbol, 'h_kind': h_kind}
+def h_reject(c):
+  """Edges of the domain: the empty pitch list (outside the property's
+  quantifier; it is either given the library's no-chord name or refused like
+  any set that cannot be named), and strings that are no chord symbols, which
+  each of the four interpreters refuses with ChordSymbolError as documented."""
+  cs = c.mod('chord_symbols_lib')
+  if c.choice('what', ['empty', 'string']) == 'empty':
+    arg = c.choice('container', [[], (), set()])
+    res, err = c.raises(cs.pitches_to_chord_symbol, arg)
+    if err is not None:
+      c.check(isinstance(err, cs.ChordSymbolError),
+              'a set that cannot be named raises ChordSymbolError and nothing '
+              'else')
+    else:
+      c.check(res == c.mod('constants').NO_CHORD,
+              'no pitches are named as no chord, if named at all')
+    c.cover('empty pitch list')
+    return
+  fig = c.choice('fig', _NOT_SYMBOLS)
+  fn = c.choice('fn', ['chord_symbol_root', 'chord_symbol_bass',
+                       'chord_symbol_pitches', 'chord_symbol_quality'])
+  res, err = c.raises(getattr(cs, fn), fig)
+  c.check(err is not None, 'a string that is no chord symbol is not interpreted')
+  c.check(err is None or isinstance(err, cs.ChordSymbolError),
+          'an uninterpretable symbol raises ChordSymbolError')
+  c.cover('string refused')
+
+
+def h_mods(c):
+  """_degrees_to_modifications called directly, also where the namer never
+  takes it (target not a superset of the kind): the modifications it writes
+  turn the chord into the target chord, as its docstring says.  Both degree
+  lists come from the module's table; a degree present in both may differ only
+  as natural -> altered by one semitone (the function refuses to alter to a
+  natural, and an alteration is written relative to the degree as it stands)."""
+  cs = c.mod('chord_symbols_lib')
+  kinds = cs._CHORD_KINDS
+  lo, hi = c.params['kinds']
+  ab1, deg1 = c.choice('from', kinds[lo:hi])
+  _, deg2 = c.choice('to', kinds)
+  d1, d2 = _model_degrees(deg1), _model_degrees(deg2)
+  for n in d1:
+    if n in d2 and d1[n] != d2[n]:
+      c.assume(d1[n] == 0 and abs(d2[n]) == 1)
+  res, err = c.raises(cs._degrees_to_modifications, list(deg1), list(deg2))
+  c.check(err is None, 'modifications between two table kinds are found')
+  if err is not None:
+    return
+  want = sorted(set(_degree_pc(d) for d in deg2))
+  for ab in ab1[:2]:
+    got, err = c.raises(cs.chord_symbol_pitches, 'C' + ab + res)
+    c.check(err is None and sorted(set(got)) == want,
+            'the modifications turn the chord into the target chord')
+  c.cover('a degree is removed', '(no' in res)
+  c.cover('a present degree is altered',
+          any(n in d2 and d1[n] != d2[n] for n in d1))
+
+
+HARNESSES = {'h_name': h_name, 'h_symbol': h_symbol, 'h_kind': h_kind,
+             'h_reject': h_reject, 'h_mods': h_mods}
 
 
 def jobs(tier):
@@ -263,7 +503,31 @@ def jobs(tier):
   add(harness='h_symbol', kinds=[0, 4], M=0, root_steps=list('CDEFGAB'),
       root_alters=[-2, -1, 0, 1, 2], degrees=[], bass_steps=list('CDEFGAB'),
       bass_alters=[-2, -1, 0, 1, 2])
+  # --- added after the audit of untested behaviours ---------------------
+  # storage order / container of the argument (reversed, rotated, tuple, set),
+  # incl. pitches 108..127
+  add(K=2, container='any', octs=[4, 5])
+  add(K=3, first=1, container='any', octs=[9, 10])
+  # the identical pitch supplied twice
+  add(K=2, doubled='same')
+  # the one set with no name (all twelve pitch classes): the error branch
+  add(K=12, first=0, octs=[4, 5])
+  # triads, sevenths, sixths, sus, ped, 5 plus ONE foreign pitch class (slash
+  # chords over a foreign bass, one added or altered tension)
+  for lo, hi in ((0, 2), (2, 4), (4, 7), (24, 27)):
+    add(harness='h_kind', kinds=[lo, hi], extra=True, budget=900)
+  # two modifications in a row, against the harness's model of the figure
+  for names in (['', 'm', '+'], ['o', '7', 'maj7'], ['m7b5', 'o7', 'sus'],
+                ['5', '13', '6/9']):
+    add(harness='h_symbol', kind_names=names, M=2, root_steps=['E'],
+        root_alters=[-1], degrees=[1, 3, 5, 7, 9], bass_steps=['G'],
+        bass_alters=[0], budget=900)
+  add(harness='h_reject')
+  add(harness='h_mods', kinds=[0, 15])
+  add(harness='h_mods', kinds=[15, 29])
   if deep:
+    for lo in list(range(7, 24, 2)) + [27]:
+      add(harness='h_kind', kinds=[lo, lo + 2], extra=True, budget=3000)
     # two modifications, all 35 root spellings
     for lo in range(0, 68, 2):
       add(harness='h_symbol', kinds=[lo, lo + 2], M=2,
